@@ -134,7 +134,7 @@ def gen_one(rng, k):
 
 
 def generate(rng, tier):
-    n = {"quick": 320, "escalated": 1200, "thorough": 5000}[tier]
+    n = {"quick": 320, "escalated": 800, "thorough": 5000}[tier]
     return [gen_one(rng, k) for k in range(n)]
 
 
